@@ -393,6 +393,156 @@ def run_bigcut(sc):
     return {"tid": sc["tid"], "events": events}
 
 
+# ------------------------------------------------------------------------------ free-running processes (no scheduling)
+FREE_NAMES = [("m1", "my_func"), ("m1", "my_funcs"), ("m1", "Foo.bar"), ("m1", "foo"), ("m2", "my_func"), ("m1.sub", "area"),
+              ("m1", "sub.area"), ("m2", "other"), ("m1", "a%b"), ("m1", "aXb")]
+FREE_QUERIES = [("m1", None, 2000), ("m1", "my_func", 2000), ("m1", "my", 3), ("m2", None, 1), ("m1.sub", None, 2000),
+                ("m1", "sub.", 2000), ("m1", "a%", 2000), ("m1", "Foo.", 1)]
+
+
+def _free_log(logpath, ev):
+    import fcntl
+    with open(logpath + ".lock", "w") as lk:
+        fcntl.flock(lk, fcntl.LOCK_EX)
+        with open(logpath, "a") as fh:
+            fh.write(json.dumps(ev) + "\n")
+
+
+def _free_traces(names):
+    from monkeytype.tracing import CallTrace
+    out = []
+    for mod, qn in names:
+        f = types.FunctionType(_code(), {}, qn.split(".")[-1])
+        f.__module__, f.__qualname__ = mod, qn
+        out.append(CallTrace(f, {"a": int}, None, None))
+    return out
+
+
+def _free_rows(names):
+    from monkeytype.encoding import CallTraceRow
+    out = []
+    for t in _free_traces(names):
+        r = CallTraceRow.from_trace(t)
+        out.append(row_abs(r.module, r.qualname, r.arg_types, r.return_type, r.yield_type))
+    return out
+
+
+def free_writer(dbpath, logpath, wid, batches, repo):
+    import logging
+    import sys
+    logging.disable(logging.CRITICAL)
+    if repo not in sys.path:
+        sys.path.insert(0, repo)
+    from monkeytype.db.sqlite import SQLiteStore
+    store = SQLiteStore.make_store(dbpath)
+    for j, names in enumerate(batches):
+        bid = "w%db%d" % (wid, j)
+        _free_log(logpath, {"ev": "AddStart", "c": "w%d" % wid, "b": bid, "rows": _free_rows(names), "nbad": 0})
+        try:
+            store.add(_free_traces(names))
+            _free_log(logpath, {"ev": "AddEnd", "c": "w%d" % wid, "b": bid, "ok": True, "err": ""})
+        except Exception as e:
+            _free_log(logpath, {"ev": "AddEnd", "c": "w%d" % wid, "b": bid, "ok": False, "err": ("%s: %s" % (type(e).__name__, e))[:80]})
+        time.sleep(0.004)
+    store.conn.close()
+
+
+def free_reader(dbpath, logpath, rid, nq, seed, repo):
+    import logging
+    import sys
+    logging.disable(logging.CRITICAL)
+    if repo not in sys.path:
+        sys.path.insert(0, repo)
+    from monkeytype.db.sqlite import SQLiteStore
+    rng = random.Random(seed)
+    store = SQLiteStore.make_store(dbpath)
+    c = "r%d" % rid
+    for _ in range(nq):
+        _free_log(logpath, {"ev": "QueryStart", "c": c})
+        if rng.random() < 0.2:
+            try:
+                _free_log(logpath, {"ev": "Modules", "c": c, "res": list(store.list_modules())})
+            except Exception as e:
+                _free_log(logpath, {"ev": "QueryFailed", "c": c, "op": "list_modules", "err": str(e)[:80]})
+            continue
+        m, p, n = rng.choice(FREE_QUERIES)
+        try:
+            rows = store.filter(m, p, n)
+            _free_log(logpath, {"ev": "Filter", "c": c, "m": m, "p": [0] if p is None else [ord(ch) for ch in p], "n": n,
+                                "res": [row_abs(r.module, r.qualname, r.arg_types, r.return_type, r.yield_type) for r in rows]})
+        except Exception as e:
+            _free_log(logpath, {"ev": "QueryFailed", "c": c, "op": "filter", "err": str(e)[:80]})
+    store.conn.close()
+
+
+def free_checker(dbpath, logpath, n):
+    for _ in range(n):
+        _free_log(logpath, {"ev": "QueryStart", "c": "chk"})
+        _free_log(logpath, check_event(dbpath))
+        time.sleep(0.002)
+
+
+def run_free(sc):
+    """sc = {tid, writers, per_writer, readers, queries, seed}: processes run freely against one database file; the only
+    ordering is that of their entries in one shared log (written under a lock: AddStart before add() is called, AddEnd after
+    it returned; QueryStart before a query is sent, the answer after it came back)."""
+    ctx = mp.get_context("fork")
+    d = tlc.scratch_dir("mtverif_free_")
+    dbpath, logpath = os.path.join(d, "traces.sqlite3"), os.path.join(d, "events.ndjson")
+    rng = random.Random(sc["seed"])
+    try:
+        from monkeytype.db.sqlite import SQLiteStore
+        SQLiteStore.make_store(dbpath).conn.close()
+        open(logpath, "w").close()
+        procs = []
+        for w in range(sc["writers"]):
+            batches = [rng.sample(FREE_NAMES, rng.randint(1, 3)) + ([rng.choice(FREE_NAMES)] if rng.random() < 0.3 else [])
+                       for _ in range(sc["per_writer"])]
+            for j in range(len(batches)):      # some bulky batches (the insert takes long enough to be looked at from outside)
+                if rng.random() < 0.35:
+                    batches[j] = batches[j] + [("mbulk", "w%db%d_fn%03d" % (w, j, x)) for x in range(rng.randint(25, 60))]
+            procs.append(ctx.Process(target=free_writer, args=(dbpath, logpath, w, batches, core.REPO), daemon=True))
+        for r in range(sc["readers"]):
+            procs.append(ctx.Process(target=free_reader, args=(dbpath, logpath, r, sc["queries"], sc["seed"] * 100 + r, core.REPO), daemon=True))
+        procs.append(ctx.Process(target=free_checker, args=(dbpath, logpath, sc["queries"] // 2), daemon=True))
+        for p in procs:
+            p.start()
+        for p in procs:
+            p.join(120)
+            if p.is_alive():
+                p.kill()
+                raise RuntimeError("free-running process did not finish")
+        with open(logpath) as fh:
+            events = [json.loads(line) for line in fh if line.strip()]
+        # an answer whose query interval saw more than 4 batches commit is dropped (its explanation space is exponential
+        # in that number; dropping an observation never turns a correct store into a violation)
+        open_q, commits, keep = {}, 0, [True] * len(events)
+        for idx, e in enumerate(events):
+            if e["ev"] == "AddEnd" and e["ok"]:
+                commits += 1
+            elif e["ev"] == "QueryStart":
+                open_q[e["c"]] = (idx, commits)
+            elif e["ev"] in ("Filter", "Modules", "QueryFailed", "Check"):
+                c = e.get("c", "chk")
+                if c in open_q:
+                    idx0, c0 = open_q.pop(c)
+                    if commits - c0 > 4:
+                        keep[idx] = keep[idx0] = False
+        dropped = keep.count(False) // 2
+        events = [e for e, kp in zip(events, keep) if kp]
+        events.append(check_event(dbpath))
+        st = SQLiteStore.make_store(dbpath)
+        events.append({"ev": "Modules", "c": "fresh", "res": list(st.list_modules())})
+        for m, p, n in FREE_QUERIES:
+            rows = st.filter(m, p, n)
+            events.append({"ev": "Filter", "c": "fresh", "m": m, "p": [0] if p is None else [ord(ch) for ch in p], "n": n,
+                           "res": [row_abs(r.module, r.qualname, r.arg_types, r.return_type, r.yield_type) for r in rows]})
+        st.conn.close()
+    finally:
+        shutil.rmtree(d, ignore_errors=True)
+    return {"tid": sc["tid"], "events": events, "dropped_answers": dropped}
+
+
 def calibrate_callbacks(rows):
     """Number of progress callbacks an uninterrupted add() of `rows` rows takes (on an empty table)."""
     ctx = mp.get_context("fork")
@@ -414,7 +564,7 @@ def _run_chunk(chunk):
     core.use_repo()
     import logging
     logging.disable(logging.CRITICAL)
-    return [(run_bigcut(sc) if "cut" in sc else run_behaviour(sc)) for sc in chunk]
+    return [(run_bigcut(sc) if "cut" in sc else run_free(sc) if "writers" in sc else run_behaviour(sc)) for sc in chunk]
 
 
 def run_behaviours(scs, procs=16):
@@ -523,6 +673,15 @@ def main(pid, tier, seed, replay=None):
         plan.append({"family": "one batch of 2400 / 24000 rows after a committed batch, its add() cut at many points by an "
                                "interrupted statement or SIGKILL, through make_store()'s connection; counts and integrity before "
                                "and after reopening", "behaviours": ncut})
+    if not replay:
+        # free-running processes (no scheduling): writers, readers and an independent checker share one file; the trace is
+        # their common log, every answer placed somewhere between its QueryStart and its arrival
+        n0 = len(scs)
+        for j in range(6 if q else 80):
+            scs.append({"tid": len(scs) + 1, "writers": 2 + j % 3, "per_writer": 6 if q else 10, "readers": 1 + j % 2,
+                        "queries": 24 if q else 60, "seed": seed * 1000 + j})
+        plan.append({"family": "free-running processes: 2-4 writers x 6 (10) batches, 1-2 readers, an independent checker, one "
+                               "shared log (answers placed between QueryStart and arrival)", "behaviours": len(scs) - n0})
     records = run_behaviours(scs)
     by_tid = {r["tid"]: r for r in records}
     sc_by_tid = {s["tid"]: s for s in scs}
@@ -533,6 +692,9 @@ def main(pid, tier, seed, replay=None):
             sc = sc_by_tid[v["tid"]]
             if "cut" in sc:
                 run.violation(dict(signature(rec, clause), big_batch_cut=sc["act"]), {k: sc[k] for k in sc if k != "tid"})
+                continue
+            if "writers" in sc:
+                run.violation(dict(signature(rec, clause), free_running=True), {k: sc[k] for k in sc if k != "tid"})
                 continue
             run.violation(signature(rec, clause), {"hist": sc["hist"], "big": sc.get("big", False)})
     kinds = lambda r: {e["ev"] for e in r["events"]}  # noqa: E731
